@@ -385,7 +385,10 @@ func specialPositions(ft reflect.Type, path []int, name string, depth int) []*po
 		var in []alt
 		for i, mk := range diagnosticInfoAlphabet() {
 			mk := mk
-			in = append(in, alt{fmt.Sprintf("inner#%d", i), set(func(d *ua.DiagnosticInfo) { d.EncodingMask |= ua.DiagnosticInfoInnerDiagnosticInfo; d.InnerDiagnosticInfo = mk() })})
+			in = append(in, alt{fmt.Sprintf("inner#%d", i), set(func(d *ua.DiagnosticInfo) {
+				d.EncodingMask |= ua.DiagnosticInfoInnerDiagnosticInfo
+				d.InnerDiagnosticInfo = mk()
+			})})
 		}
 		out = append(out, &position{Path: path, Name: join(name, "InnerDiagnosticInfo"), Kind: "diag", Alts: in})
 		return out
